@@ -1586,11 +1586,17 @@ class C19(BaseMonitor):
             except Exception as e:
                 statuses.append("raised:" + type(e).__name__)
                 snaps.append(None)
+                messages = getattr(self, "_sim_messages", [])
+                messages.append(f"{type(e).__name__}: {str(e)[:90]}")
+                self._sim_messages = messages
         self.res.count("fault:simulation")
         if len(set(s_.split(":")[0] for s_ in statuses)) > 1:
+            msgs, self._sim_messages = getattr(self, "_sim_messages", []), []
             raise Violation("C19", "accept_raise_disagreement", {op_kind(op)},
                             "variants disagree on a simulation: " + ", ".join(
-                                f"{lab}: {st}" for (lab, _, _), st in zip(self.variants, statuses)), i, op_kind(op))
+                                f"{lab}: {st}" for (lab, _, _), st in zip(self.variants, statuses))
+                            + (" [" + "; ".join(sorted(set(msgs))) + "]" if msgs else ""), i, op_kind(op))
+        self._sim_messages = []
         if statuses[0] != "ok":
             return statuses[0].split(":")[0]
         for (label, sim, perm), other in zip(self.variants[1:], snaps[1:]):
@@ -1611,6 +1617,7 @@ class C19(BaseMonitor):
         if op["op"] == "simulate":
             return self.step_simulation(i, op)
         statuses = []
+        msgs_ = []
         for label, sim, perm in self.variants:
             vop = self.permute_op(op, sim.spec) if perm else op
             self.sim_for_execute = sim
@@ -1628,12 +1635,14 @@ class C19(BaseMonitor):
                     raise
                 except Exception as e:
                     statuses.append("raised:" + type(e).__name__)
+                    msgs_.append(f"{type(e).__name__}: {str(e)[:90]}")
             finally:
                 pass
         if len(set(s_.split(":")[0] for s_ in statuses)) > 1:
             raise Violation("C19", "accept_raise_disagreement", {op_kind(op)},
                             f"variants disagree on {op_kind(op)}: " + ", ".join(
-                                f"{lab}: {st}" for (lab, _, _), st in zip(self.variants, statuses)), i, op_kind(op))
+                                f"{lab}: {st}" for (lab, _, _), st in zip(self.variants, statuses))
+                            + (" [" + "; ".join(sorted(set(msgs_))) + "]" if msgs_ else ""), i, op_kind(op))
         if statuses[0].startswith("raised"):
             self.res.count("ended_on_raise:" + statuses[0].split(":")[1])
             self.stop = "op_raised"
